@@ -186,7 +186,11 @@ CHECKS = {
                 "After quiescence: every selected file whose events were delivered is at the same relative path with "
                 "identical (latest) content, no tmp. left, nothing unselected, newest metadata file still in the source "
                 "(move), and a reader on the destination returns what the mirrored files hold.",
-        "note": "complete over the mirror's op boundaries per history, sampled over histories; metadata files are mirrored "
+        "note": "additional fault tiers: the publishing rename tmp.X -> X inside the destination fails once with EIO (20% of "
+                "the runs); the mirror process is SIGKILLed at a seeded boundary and a new mirror process replays the existing "
+                "files (real start()) and all events delivered so far (25%), with the invariants checked at every boundary of "
+                "the second process too. "
+                "Complete over the mirror's op boundaries per history, sampled over histories; metadata files are mirrored "
                 "at call granularity of the metadata writer (never mid-append); events are derived from the model of the "
                 "recording, the watchdog observer is stubbed. One known finding (KF-C17-1) is recorded, not repaired.",
     },
@@ -198,7 +202,10 @@ CHECKS = {
                 "every final-named file against an exact model, byte stability across later states, reader and listing "
                 "on the state, tmp confinement, and the clean-close postcondition. Complete over crash points per "
                 "workload, sampled over workloads.",
-        "note": "HDF5 1.10.8 build of the tree; crash = process death (page cache survives); parked==killed equivalence "
+        "note": "every third run adds a restart tier: the recorder is SIGKILLed at a seeded boundary, a NEW recorder process "
+                "starts inside the file period that was in progress, and every boundary of that process (and its close) "
+                "is judged by the same oracle - a stale tmp. file must never surface under a final name. "
+                "HDF5 1.10.8 build of the tree; crash = process death (page cache survives); parked==killed equivalence "
                 "is cross-checked by real SIGKILL on a third of the runs; model and value streams are the trusted base.",
     },
     "C09": {
